@@ -4,12 +4,13 @@
 (* current and another channel incl. Note Off and Note On with velocity 0; at most MaxHeld keys.   *)
 EXTENDS Led, Json
 
-CONSTANTS OctB, ChanB, MaxHeld, DumpEdges
+CONSTANTS OctB, SemiB, ChanB, MaxHeld, DumpEdges
 
 MCCfg ==
   [ mode |-> "interrupt", exit |-> <<>>, vel |-> 64, dOct |-> 0, dSemi |-> 0, dChan |-> 0, dMap |-> 1,
     actions |-> [KEY_F1 |-> "octave_down", KEY_F2 |-> "octave_up", KEY_F5 |-> "channel_down", KEY_F6 |-> "channel_up",
-                 KEY_F11 |-> "mapping_down", KEY_F12 |-> "mapping_up", KEY_ESC |-> "panic"],
+                 KEY_F11 |-> "mapping_down", KEY_F12 |-> "mapping_up", KEY_ESC |-> "panic",
+                 KEY_F3 |-> "semitone_down", KEY_F4 |-> "semitone_up"],
     maps |-> << [name |-> "M1", axes |-> <<>>,
                  keys |-> [KEY_A |-> [n |-> 60, o |-> 0], KEY_S |-> [n |-> 61, o |-> 0], KEY_D |-> [n |-> 62, o |-> 0]]],
                 [name |-> "M2", axes |-> <<>>,
@@ -22,11 +23,14 @@ KeyInputs == {[ev |-> e, k |-> k] : e \in {"press", "release"}, k \in {"KEY_A", 
              \cup {[ev |-> "tap", k |-> k] : k \in DOMAIN MCCfg.actions}
              \cup {[ev |-> "disconnect"]}
 
-Bound(s) == s.oct \in -OctB..OctB /\ s.chan \in 0..ChanB /\ Cardinality(s.held) <= MaxHeld
+Bound(s) == s.oct \in -OctB..OctB /\ s.semi \in -SemiB..SemiB /\ s.chan \in 0..ChanB /\ Cardinality(s.held) <= MaxHeld
 
 Init == InitWith(MCCfg) /\ ext = {} /\ seen = <<>>
 
+\* (a life costs half a second of LED connection phase on the real code: the final red frame is exercised
+\* from the states without MIDI-input notes, not from every state)
 KeyNext == \E in \in KeyInputs :
+             /\ (in.ev = "disconnect" => ext = {})
              /\ Alternates(in) /\ ModelStep(in, Bound)
              /\ ext' = (IF lastBr' = "Panic" THEN {} ELSE ext) /\ UNCHANGED seen
 
